@@ -20,6 +20,8 @@ def one(sd, jobs):
             return sd, "PATCH-FAILS", []
         props = [prop]
         meta = json.load(open(os.path.join(d, "meta.json")))
+        if meta.get("obsolete"):
+            return sd, "caught", [("n/a", ["obsolete: " + meta["obsolete"][:80]])]
         # a seed may be owned by another check as well (recorded when it was stored)
         for k, v in (meta.get("confirmed_by_framework_author", {}).get("checks", {}) or {}).items():
             if v.get("fired") and k not in props:
